@@ -256,7 +256,7 @@ fn crashes(case: &Case, dir: &str) -> Option<String> {
     let tmp = format!("{dir}/replays/.crash-candidate-{}.json", std::process::id());
     let j = J::obj().with("case", case.to_json());
     std::fs::write(&tmp, j.to_pretty()).ok()?;
-    let r = run_child(&["replay-child".to_string(), tmp.clone()], false, Some(120)).ok();
+    let r = run_child(&["replay-child".to_string(), tmp.clone()], false, Some(45)).ok();
     let _ = std::fs::remove_file(&tmp);
     let r = r?;
     match (r.code, r.signal) {
@@ -281,6 +281,10 @@ fn report_crash(cfg: &Config, i: u64, sig: &str) -> i32 {
     // minimise with one child process per candidate (text by lines, then by characters)
     let mut best = original.clone();
     let mut steps = 0u64;
+    // every candidate costs a process (and, for a death by memory exhaustion, the time it takes to
+    // exhaust it): bound the whole minimisation by wall-clock time, report what was reached
+    let t_min = std::time::Instant::now();
+    let in_time = || t_min.elapsed() < std::time::Duration::from_secs(180);
     if crashes(&best, &cfg.verif_dir).is_some() {
         if best.eof_at.is_some() {
             let mut c = best.clone();
@@ -299,13 +303,13 @@ fn report_crash(cfg: &Config, i: u64, sig: &str) -> i32 {
                 } else {
                     best.text.chars().map(|c| c.to_string()).collect()
                 };
-                if items.len() < 2 || steps > 200 {
+                if items.len() < 2 || steps > 200 || !in_time() {
                     break;
                 }
                 let chunk = items.len().div_ceil(n);
                 let mut reduced = false;
                 let mut start = 0;
-                while start < items.len() && steps <= 200 {
+                while start < items.len() && steps <= 200 && in_time() {
                     let end = (start + chunk).min(items.len());
                     let mut c = best.clone();
                     c.text = items[..start].concat() + &items[end..].concat();
